@@ -106,7 +106,10 @@ macro_rules! h {
 /// operation kinds / epochs, and with only the store content symbolic, were tried first: even two
 /// operations on one element do not finish in 1000 s (the staged operations are sorted on a
 /// heap-allocated vector and merged through Arc/RwLock-held sets), while a concrete history takes
-/// under a minute.  The history space is therefore enumerated as harness instances; what CBMC
+/// under a minute.  Instances in which a durable prefix has already been flushed out of the log
+/// (`FlushUpTo`) were generated as well and removed: none of them finishes within 30 minutes; the
+/// "m" instances (element already durable in the store) cover the store side of that situation.
+/// The history space is therefore enumerated as harness instances; what CBMC
 /// decides per instance is the real code's result plus all panics / memory-safety checks.
 macro_rules! overlay_inst {
     ($name:ident, [$(($ins:expr, $el:expr, $ep:expr)),*], $f:expr, $db0:expr) => {
@@ -141,84 +144,34 @@ macro_rules! overlay_inst {
 }
 overlay_inst!(c09_t_inst_i1e0i1e0_fn_m, [(true, 1u8, 0u64), (true, 1u8, 0u64)], -1, 0b010);
 overlay_inst!(c09_t_inst_i1e0i1e0_fn_e, [(true, 1u8, 0u64), (true, 1u8, 0u64)], -1, 0b000);
-overlay_inst!(c09_t_inst_i1e0i1e0_f0_m, [(true, 1u8, 0u64), (true, 1u8, 0u64)], 0, 0b010);
-overlay_inst!(c09_t_inst_i1e0i1e0_f0_e, [(true, 1u8, 0u64), (true, 1u8, 0u64)], 0, 0b000);
 overlay_inst!(c09_t_inst_i1e0i1e1_fn_m, [(true, 1u8, 0u64), (true, 1u8, 1u64)], -1, 0b010);
 overlay_inst!(c09_t_inst_i1e0i1e1_fn_e, [(true, 1u8, 0u64), (true, 1u8, 1u64)], -1, 0b000);
-overlay_inst!(c09_t_inst_i1e0i1e1_f0_m, [(true, 1u8, 0u64), (true, 1u8, 1u64)], 0, 0b010);
-overlay_inst!(c09_t_inst_i1e0i1e1_f0_e, [(true, 1u8, 0u64), (true, 1u8, 1u64)], 0, 0b000);
-overlay_inst!(c09_t_inst_i1e0i1e1_f1_m, [(true, 1u8, 0u64), (true, 1u8, 1u64)], 1, 0b010);
-overlay_inst!(c09_t_inst_i1e0i1e1_f1_e, [(true, 1u8, 0u64), (true, 1u8, 1u64)], 1, 0b000);
 overlay_inst!(c09_q_inst_i1e0r1e0_fn_m, [(true, 1u8, 0u64), (false, 1u8, 0u64)], -1, 0b010);
 overlay_inst!(c09_q_inst_i1e0r1e0_fn_e, [(true, 1u8, 0u64), (false, 1u8, 0u64)], -1, 0b000);
-overlay_inst!(c09_t_inst_i1e0r1e0_f0_m, [(true, 1u8, 0u64), (false, 1u8, 0u64)], 0, 0b010);
-overlay_inst!(c09_t_inst_i1e0r1e0_f0_e, [(true, 1u8, 0u64), (false, 1u8, 0u64)], 0, 0b000);
 overlay_inst!(c09_q_inst_i1e0r1e1_fn_m, [(true, 1u8, 0u64), (false, 1u8, 1u64)], -1, 0b010);
 overlay_inst!(c09_q_inst_i1e0r1e1_fn_e, [(true, 1u8, 0u64), (false, 1u8, 1u64)], -1, 0b000);
-overlay_inst!(c09_t_inst_i1e0r1e1_f0_m, [(true, 1u8, 0u64), (false, 1u8, 1u64)], 0, 0b010);
-overlay_inst!(c09_t_inst_i1e0r1e1_f0_e, [(true, 1u8, 0u64), (false, 1u8, 1u64)], 0, 0b000);
-overlay_inst!(c09_t_inst_i1e0r1e1_f1_m, [(true, 1u8, 0u64), (false, 1u8, 1u64)], 1, 0b010);
-overlay_inst!(c09_t_inst_i1e0r1e1_f1_e, [(true, 1u8, 0u64), (false, 1u8, 1u64)], 1, 0b000);
 overlay_inst!(c09_t_inst_r1e0i1e0_fn_m, [(false, 1u8, 0u64), (true, 1u8, 0u64)], -1, 0b010);
 overlay_inst!(c09_t_inst_r1e0i1e0_fn_e, [(false, 1u8, 0u64), (true, 1u8, 0u64)], -1, 0b000);
-overlay_inst!(c09_t_inst_r1e0i1e0_f0_m, [(false, 1u8, 0u64), (true, 1u8, 0u64)], 0, 0b010);
-overlay_inst!(c09_t_inst_r1e0i1e0_f0_e, [(false, 1u8, 0u64), (true, 1u8, 0u64)], 0, 0b000);
 overlay_inst!(c09_q_inst_r1e0i1e1_fn_m, [(false, 1u8, 0u64), (true, 1u8, 1u64)], -1, 0b010);
 overlay_inst!(c09_q_inst_r1e0i1e1_fn_e, [(false, 1u8, 0u64), (true, 1u8, 1u64)], -1, 0b000);
-overlay_inst!(c09_t_inst_r1e0i1e1_f0_m, [(false, 1u8, 0u64), (true, 1u8, 1u64)], 0, 0b010);
-overlay_inst!(c09_t_inst_r1e0i1e1_f0_e, [(false, 1u8, 0u64), (true, 1u8, 1u64)], 0, 0b000);
-overlay_inst!(c09_t_inst_r1e0i1e1_f1_m, [(false, 1u8, 0u64), (true, 1u8, 1u64)], 1, 0b010);
-overlay_inst!(c09_t_inst_r1e0i1e1_f1_e, [(false, 1u8, 0u64), (true, 1u8, 1u64)], 1, 0b000);
 overlay_inst!(c09_t_inst_r1e0r1e0_fn_m, [(false, 1u8, 0u64), (false, 1u8, 0u64)], -1, 0b010);
 overlay_inst!(c09_t_inst_r1e0r1e0_fn_e, [(false, 1u8, 0u64), (false, 1u8, 0u64)], -1, 0b000);
-overlay_inst!(c09_t_inst_r1e0r1e0_f0_m, [(false, 1u8, 0u64), (false, 1u8, 0u64)], 0, 0b010);
-overlay_inst!(c09_t_inst_r1e0r1e0_f0_e, [(false, 1u8, 0u64), (false, 1u8, 0u64)], 0, 0b000);
 overlay_inst!(c09_t_inst_r1e0r1e1_fn_m, [(false, 1u8, 0u64), (false, 1u8, 1u64)], -1, 0b010);
 overlay_inst!(c09_t_inst_r1e0r1e1_fn_e, [(false, 1u8, 0u64), (false, 1u8, 1u64)], -1, 0b000);
-overlay_inst!(c09_t_inst_r1e0r1e1_f0_m, [(false, 1u8, 0u64), (false, 1u8, 1u64)], 0, 0b010);
-overlay_inst!(c09_t_inst_r1e0r1e1_f0_e, [(false, 1u8, 0u64), (false, 1u8, 1u64)], 0, 0b000);
-overlay_inst!(c09_t_inst_r1e0r1e1_f1_m, [(false, 1u8, 0u64), (false, 1u8, 1u64)], 1, 0b010);
-overlay_inst!(c09_t_inst_r1e0r1e1_f1_e, [(false, 1u8, 0u64), (false, 1u8, 1u64)], 1, 0b000);
 overlay_inst!(c09_q_inst_i1e0r1e1i1e2_fn_m, [(true, 1u8, 0u64), (false, 1u8, 1u64), (true, 1u8, 2u64)], -1, 0b010);
 overlay_inst!(c09_q_inst_i1e0r1e1i1e2_fn_e, [(true, 1u8, 0u64), (false, 1u8, 1u64), (true, 1u8, 2u64)], -1, 0b000);
-overlay_inst!(c09_t_inst_i1e0r1e1i1e2_f0_m, [(true, 1u8, 0u64), (false, 1u8, 1u64), (true, 1u8, 2u64)], 0, 0b010);
-overlay_inst!(c09_t_inst_i1e0r1e1i1e2_f0_e, [(true, 1u8, 0u64), (false, 1u8, 1u64), (true, 1u8, 2u64)], 0, 0b000);
-overlay_inst!(c09_t_inst_i1e0r1e1i1e2_f1_m, [(true, 1u8, 0u64), (false, 1u8, 1u64), (true, 1u8, 2u64)], 1, 0b010);
-overlay_inst!(c09_t_inst_i1e0r1e1i1e2_f1_e, [(true, 1u8, 0u64), (false, 1u8, 1u64), (true, 1u8, 2u64)], 1, 0b000);
 overlay_inst!(c09_t_inst_r1e0i1e1r1e2_fn_m, [(false, 1u8, 0u64), (true, 1u8, 1u64), (false, 1u8, 2u64)], -1, 0b010);
 overlay_inst!(c09_t_inst_r1e0i1e1r1e2_fn_e, [(false, 1u8, 0u64), (true, 1u8, 1u64), (false, 1u8, 2u64)], -1, 0b000);
-overlay_inst!(c09_t_inst_r1e0i1e1r1e2_f0_m, [(false, 1u8, 0u64), (true, 1u8, 1u64), (false, 1u8, 2u64)], 0, 0b010);
-overlay_inst!(c09_t_inst_r1e0i1e1r1e2_f0_e, [(false, 1u8, 0u64), (true, 1u8, 1u64), (false, 1u8, 2u64)], 0, 0b000);
-overlay_inst!(c09_t_inst_r1e0i1e1r1e2_f1_m, [(false, 1u8, 0u64), (true, 1u8, 1u64), (false, 1u8, 2u64)], 1, 0b010);
-overlay_inst!(c09_t_inst_r1e0i1e1r1e2_f1_e, [(false, 1u8, 0u64), (true, 1u8, 1u64), (false, 1u8, 2u64)], 1, 0b000);
 overlay_inst!(c09_t_inst_i1e0i1e1r1e2_fn_m, [(true, 1u8, 0u64), (true, 1u8, 1u64), (false, 1u8, 2u64)], -1, 0b010);
 overlay_inst!(c09_t_inst_i1e0i1e1r1e2_fn_e, [(true, 1u8, 0u64), (true, 1u8, 1u64), (false, 1u8, 2u64)], -1, 0b000);
-overlay_inst!(c09_t_inst_i1e0i1e1r1e2_f0_m, [(true, 1u8, 0u64), (true, 1u8, 1u64), (false, 1u8, 2u64)], 0, 0b010);
-overlay_inst!(c09_t_inst_i1e0i1e1r1e2_f0_e, [(true, 1u8, 0u64), (true, 1u8, 1u64), (false, 1u8, 2u64)], 0, 0b000);
-overlay_inst!(c09_t_inst_i1e0i1e1r1e2_f1_m, [(true, 1u8, 0u64), (true, 1u8, 1u64), (false, 1u8, 2u64)], 1, 0b010);
-overlay_inst!(c09_t_inst_i1e0i1e1r1e2_f1_e, [(true, 1u8, 0u64), (true, 1u8, 1u64), (false, 1u8, 2u64)], 1, 0b000);
 overlay_inst!(c09_t_inst_r1e0r1e1i1e2_fn_m, [(false, 1u8, 0u64), (false, 1u8, 1u64), (true, 1u8, 2u64)], -1, 0b010);
 overlay_inst!(c09_t_inst_r1e0r1e1i1e2_fn_e, [(false, 1u8, 0u64), (false, 1u8, 1u64), (true, 1u8, 2u64)], -1, 0b000);
-overlay_inst!(c09_t_inst_r1e0r1e1i1e2_f0_m, [(false, 1u8, 0u64), (false, 1u8, 1u64), (true, 1u8, 2u64)], 0, 0b010);
-overlay_inst!(c09_t_inst_r1e0r1e1i1e2_f0_e, [(false, 1u8, 0u64), (false, 1u8, 1u64), (true, 1u8, 2u64)], 0, 0b000);
-overlay_inst!(c09_t_inst_r1e0r1e1i1e2_f1_m, [(false, 1u8, 0u64), (false, 1u8, 1u64), (true, 1u8, 2u64)], 1, 0b010);
-overlay_inst!(c09_t_inst_r1e0r1e1i1e2_f1_e, [(false, 1u8, 0u64), (false, 1u8, 1u64), (true, 1u8, 2u64)], 1, 0b000);
 overlay_inst!(c09_t_inst_i1e0r1e1r1e2_fn_m, [(true, 1u8, 0u64), (false, 1u8, 1u64), (false, 1u8, 2u64)], -1, 0b010);
 overlay_inst!(c09_t_inst_i1e0r1e1r1e2_fn_e, [(true, 1u8, 0u64), (false, 1u8, 1u64), (false, 1u8, 2u64)], -1, 0b000);
-overlay_inst!(c09_t_inst_i1e0r1e1r1e2_f0_m, [(true, 1u8, 0u64), (false, 1u8, 1u64), (false, 1u8, 2u64)], 0, 0b010);
-overlay_inst!(c09_t_inst_i1e0r1e1r1e2_f0_e, [(true, 1u8, 0u64), (false, 1u8, 1u64), (false, 1u8, 2u64)], 0, 0b000);
-overlay_inst!(c09_t_inst_i1e0r1e1r1e2_f1_m, [(true, 1u8, 0u64), (false, 1u8, 1u64), (false, 1u8, 2u64)], 1, 0b010);
-overlay_inst!(c09_t_inst_i1e0r1e1r1e2_f1_e, [(true, 1u8, 0u64), (false, 1u8, 1u64), (false, 1u8, 2u64)], 1, 0b000);
 overlay_inst!(c09_t_inst_r1e0i1e1i1e2_fn_m, [(false, 1u8, 0u64), (true, 1u8, 1u64), (true, 1u8, 2u64)], -1, 0b010);
 overlay_inst!(c09_t_inst_r1e0i1e1i1e2_fn_e, [(false, 1u8, 0u64), (true, 1u8, 1u64), (true, 1u8, 2u64)], -1, 0b000);
-overlay_inst!(c09_t_inst_r1e0i1e1i1e2_f0_m, [(false, 1u8, 0u64), (true, 1u8, 1u64), (true, 1u8, 2u64)], 0, 0b010);
-overlay_inst!(c09_t_inst_r1e0i1e1i1e2_f0_e, [(false, 1u8, 0u64), (true, 1u8, 1u64), (true, 1u8, 2u64)], 0, 0b000);
-overlay_inst!(c09_t_inst_r1e0i1e1i1e2_f1_m, [(false, 1u8, 0u64), (true, 1u8, 1u64), (true, 1u8, 2u64)], 1, 0b010);
-overlay_inst!(c09_t_inst_r1e0i1e1i1e2_f1_e, [(false, 1u8, 0u64), (true, 1u8, 1u64), (true, 1u8, 2u64)], 1, 0b000);
 overlay_inst!(c09_t_inst_i0e0r1e0i1e1_fn_m, [(true, 0u8, 0u64), (false, 1u8, 0u64), (true, 1u8, 1u64)], -1, 0b010);
 overlay_inst!(c09_t_inst_i0e0r1e0i1e1_fn_e, [(true, 0u8, 0u64), (false, 1u8, 0u64), (true, 1u8, 1u64)], -1, 0b000);
-overlay_inst!(c09_t_inst_r0e0i2e1r2e1i0e2_f0_m, [(false, 0u8, 0u64), (true, 2u8, 1u64), (false, 2u8, 1u64), (true, 0u8, 2u64)], 0, 0b010);
-overlay_inst!(c09_t_inst_r0e0i2e1r2e1i0e2_f0_e, [(false, 0u8, 0u64), (true, 2u8, 1u64), (false, 2u8, 1u64), (true, 0u8, 2u64)], 0, 0b000);
 
 // the two histories of the repaired defect (findings/C09_overlay_snapshot), as fixed scenarios
 h!(c09_q_regress_insert_remove_of_durable_member, 9, {
